@@ -10,6 +10,7 @@ import EzdxfVerif.Lemmas.PolygonConvex
 import EzdxfVerif.Lemmas.PolygonEar
 import EzdxfVerif.Lemmas.PolygonGH
 import EzdxfVerif.Lemmas.PolygonEarConvex
+import EzdxfVerif.Lemmas.PolygonWinding
 import Mathlib.Tactic.Ring
 import Mathlib.Tactic.Linarith
 import Mathlib.Tactic.FieldSimp
@@ -2157,6 +2158,206 @@ theorem clipLineConvex_on_segment (clip : List Pt) (tol : Rat) (htol : 0 ≤ tol
     exact clipLine_seg_master tol htol s e (c :: cs) (lastPt c cs) 0 1 (le_refl _) (by norm_num) (le_refl _) q0 q1
       (by rw [← e0, ← e1]; exact h)
 
+/-! ### E3b. `clip_line` for every tolerance `abs_tol ≥ 0` as a band statement (growth round 2): nothing inside is cut away, and
+everything returned violates a clipping edge by at most `abs_tol` (in the units of the side determinant) -/
+
+private theorem lineLine_none (tol : Rat) (es ee cs ce : Pt) (h : lineLine true tol es ee cs ce = none) :
+    PolygonKernels.rabs (sideOf cs ce es - sideOf cs ce ee) ≤ tol := by
+  have hd : sideOf cs ce es - sideOf cs ce ee
+      = (ce.y - cs.y) * (ee.x - es.x) - (ce.x - cs.x) * (ee.y - es.y) := by simp only [sideOf]; ring
+  rw [hd]
+  simp only [lineLine, PolygonKernels.lineLine] at h
+  split at h
+  · rename_i hden
+    simpa using hden
+  · simp at h
+
+private theorem lineLine_cut (tol : Rat) (htol : 0 ≤ tol) (es ee cs ce ip : Pt) (h : lineLine true tol es ee cs ce = some ip) :
+    ip = lerp es ee (sideOf cs ce es / (sideOf cs ce es - sideOf cs ce ee)) ∧ sideOf cs ce ip = 0 := by
+  obtain ⟨hne, hl⟩ := lineLine_virtual tol htol es ee cs ce ip h
+  refine ⟨hl, ?_⟩
+  rw [hl, sideOf_lerp]
+  field_simp
+  ring
+
+private theorem rabs_le {x tol : Rat} (h : PolygonKernels.rabs x ≤ tol) : x ≤ tol ∧ -x ≤ tol := by
+  unfold PolygonKernels.rabs at h
+  split_ifs at h with hn
+  · exact ⟨by linarith, h⟩
+  · exact ⟨h, by linarith [not_lt.mp hn]⟩
+
+/-- (A) every point of the segment that satisfies all constraints in `done` has its parameter in `[t0, t1]`;
+(B) every point with parameter in `[t0, t1]` violates a constraint in `done` by at most `tol` -/
+private def Band (s e : Pt) (tol : Rat) (done : List (Pt × Pt)) (t0 t1 : Rat) : Prop :=
+  (∀ t : Rat, 0 ≤ t → t ≤ 1 → (∀ E ∈ done, 0 ≤ sideOf E.1 E.2 (lerp s e t)) → t0 ≤ t ∧ t ≤ t1) ∧
+  (∀ t : Rat, t0 ≤ t → t ≤ t1 → ∀ E ∈ done, -tol ≤ sideOf E.1 E.2 (lerp s e t))
+
+private theorem band_extend (s e cs ce : Pt) (tol : Rat) (done : List (Pt × Pt)) (t0 t1 u0 u1 : Rat)
+    (hb : Band s e tol done t0 t1) (hu0 : t0 ≤ u0) (hu1 : u1 ≤ t1)
+    (hk1 : ∀ t : Rat, t0 ≤ t → t ≤ t1 → 0 ≤ sideOf cs ce (lerp s e t) → u0 ≤ t ∧ t ≤ u1)
+    (hk2 : ∀ t : Rat, u0 ≤ t → t ≤ u1 → -tol ≤ sideOf cs ce (lerp s e t)) :
+    Band s e tol (done ++ [(cs, ce)]) u0 u1 := by
+  constructor
+  · intro t k0 k1 hall
+    have hd := hb.1 t k0 k1 (fun E hE => hall E (List.mem_append_left _ hE))
+    exact hk1 t hd.1 hd.2 (hall (cs, ce) (by simp))
+  · intro t m0 m1 E hE
+    rcases List.mem_append.mp hE with hE | hE
+    · exact hb.2 t (le_trans hu0 m0) (le_trans m1 hu1) E hE
+    · simp only [List.mem_singleton] at hE
+      subst hE
+      exact hk2 t m0 m1
+
+private theorem clipLine_band_master (tol : Rat) (htol : 0 ≤ tol) (s e : Pt) :
+    ∀ (edges : List Pt) (cs : Pt) (t0 t1 : Rat) (done : List (Pt × Pt)),
+    0 ≤ t0 → t0 ≤ t1 → t1 ≤ 1 → Band s e tol done t0 t1 →
+    (∀ q0 q1, clipLineGo tol cs edges (lerp s e t0) (lerp s e t1) = some (q0, q1) →
+      ∃ u0 u1 : Rat, 0 ≤ u0 ∧ u0 ≤ u1 ∧ u1 ≤ 1 ∧ q0 = lerp s e u0 ∧ q1 = lerp s e u1 ∧
+        Band s e tol (done ++ clipEdges cs edges) u0 u1) ∧
+    (clipLineGo tol cs edges (lerp s e t0) (lerp s e t1) = none →
+      ∀ t : Rat, 0 ≤ t → t ≤ 1 → ¬ (∀ E ∈ done ++ clipEdges cs edges, 0 ≤ sideOf E.1 E.2 (lerp s e t)))
+  | [], cs, t0, t1, done, a0, a01, a1, hb => by
+    simp only [clipLineGo, clipEdges, List.append_nil]
+    refine ⟨fun q0 q1 h => ?_, fun h => by simp at h⟩
+    simp only [Option.some.injEq, Prod.mk.injEq] at h
+    exact ⟨t0, t1, a0, a01, a1, h.1.symm, h.2.symm, hb⟩
+  | ce :: rest, cs, t0, t1, done, a0, a01, a1, hb => by
+    have g := fun t => sideOf_aff cs ce s e t
+    have hassoc : done ++ clipEdges cs (ce :: rest) = (done ++ [(cs, ce)]) ++ clipEdges ce rest := by
+      simp [clipEdges]
+    rw [hassoc]
+    simp only [clipLineGo]
+    have hmt : -tol ≤ 0 := by linarith
+    by_cases hs : shInsideLine cs ce (lerp s e t0) = true
+    · rw [if_pos hs]
+      have gs : 0 ≤ sideOf cs ce (lerp s e t0) := (shInsideLine_iff _ _ _).mp hs
+      by_cases he : shInsideLine cs ce (lerp s e t1) = true
+      · simp only [he, Bool.not_true, Bool.false_eq_true, if_false]
+        have ge : 0 ≤ sideOf cs ce (lerp s e t1) := (shInsideLine_iff _ _ _).mp he
+        apply clipLine_band_master tol htol s e rest ce t0 t1 (done ++ [(cs, ce)]) a0 a01 a1
+        apply band_extend s e cs ce tol done t0 t1 t0 t1 hb (le_refl _) (le_refl _)
+        · intro t m0 m1 _; exact ⟨m0, m1⟩
+        · intro t m0 m1
+          rw [g] at gs ge ⊢
+          have := aff_ge _ _ t0 t1 t 0 gs ge m0 m1
+          linarith
+      · have ge : sideOf cs ce (lerp s e t1) < 0 := by
+          have : ¬ 0 ≤ sideOf cs ce (lerp s e t1) := fun h => he ((shInsideLine_iff _ _ _).mpr h)
+          exact not_le.mp this
+        simp only [he, Bool.not_false, if_true]
+        match hll : lineLine true tol (lerp s e t0) (lerp s e t1) cs ce with
+        | none =>
+          rw [Option.getD_none]
+          have hdn := (rabs_le (lineLine_none tol _ _ cs ce hll)).1
+          apply clipLine_band_master tol htol s e rest ce t0 t1 (done ++ [(cs, ce)]) a0 a01 a1
+          apply band_extend s e cs ce tol done t0 t1 t0 t1 hb (le_refl _) (le_refl _)
+          · intro t m0 m1 _; exact ⟨m0, m1⟩
+          · intro t m0 m1
+            simp only [g] at gs ge hdn ⊢
+            exact aff_ge _ _ t0 t1 t (-tol) (by linarith) (by linarith) m0 m1
+        | some ip =>
+          rw [Option.getD_some]
+          obtain ⟨hl, hz⟩ := lineLine_cut tol htol _ _ cs ce ip hll
+          have hr := cut_range_in_out _ _ gs ge
+          rw [lerp_lerp_pt] at hl
+          rw [hl]
+          rw [hl] at hz
+          generalize sideOf cs ce (lerp s e t0) / (sideOf cs ce (lerp s e t0) - sideOf cs ce (lerp s e t1)) = σ at hr hz hl
+          have c0 : t0 ≤ t0 + σ * (t1 - t0) := convex_ge t0 t1 σ t0 hr.1 hr.2 (le_refl _) a01
+          have c1 : t0 + σ * (t1 - t0) ≤ t1 := convex_le t0 t1 σ t1 hr.1 hr.2 a01 (le_refl _)
+          apply clipLine_band_master tol htol s e rest ce t0 (t0 + σ * (t1 - t0)) (done ++ [(cs, ce)]) a0 c0 (le_trans c1 a1)
+          apply band_extend s e cs ce tol done t0 t1 t0 _ hb (le_refl _) c1
+          · intro t m0 m1 hge
+            rw [g] at gs ge hz hge
+            exact ⟨m0, (aff_cut_upper _ _ t0 t1 _ gs ge hz a01 t).mp hge⟩
+          · intro t m0 m1
+            rw [g] at gs ge hz ⊢
+            have := (aff_cut_upper _ _ t0 t1 _ gs ge hz a01 t).mpr m1
+            linarith
+    · rw [if_neg hs]
+      have gs : sideOf cs ce (lerp s e t0) < 0 := by
+        have : ¬ 0 ≤ sideOf cs ce (lerp s e t0) := fun h => hs ((shInsideLine_iff _ _ _).mpr h)
+        exact not_le.mp this
+      by_cases he : shInsideLine cs ce (lerp s e t1) = true
+      · rw [if_pos he]
+        have ge : 0 ≤ sideOf cs ce (lerp s e t1) := (shInsideLine_iff _ _ _).mp he
+        match hll : lineLine true tol (lerp s e t0) (lerp s e t1) cs ce with
+        | none =>
+          rw [Option.getD_none]
+          have hdn := (rabs_le (lineLine_none tol _ _ cs ce hll)).2
+          apply clipLine_band_master tol htol s e rest ce t0 t1 (done ++ [(cs, ce)]) a0 a01 a1
+          apply band_extend s e cs ce tol done t0 t1 t0 t1 hb (le_refl _) (le_refl _)
+          · intro t m0 m1 _; exact ⟨m0, m1⟩
+          · intro t m0 m1
+            simp only [g] at gs ge hdn ⊢
+            exact aff_ge _ _ t0 t1 t (-tol) (by linarith) (by linarith) m0 m1
+        | some ip =>
+          rw [Option.getD_some]
+          obtain ⟨hl, hz⟩ := lineLine_cut tol htol _ _ cs ce ip hll
+          have hr := cut_range_out_in _ _ gs ge
+          rw [lerp_lerp_pt] at hl
+          rw [hl]
+          rw [hl] at hz
+          generalize sideOf cs ce (lerp s e t0) / (sideOf cs ce (lerp s e t0) - sideOf cs ce (lerp s e t1)) = σ at hr hz hl
+          have c0 : t0 ≤ t0 + σ * (t1 - t0) := convex_ge t0 t1 σ t0 hr.1 hr.2 (le_refl _) a01
+          have c1 : t0 + σ * (t1 - t0) ≤ t1 := convex_le t0 t1 σ t1 hr.1 hr.2 a01 (le_refl _)
+          apply clipLine_band_master tol htol s e rest ce (t0 + σ * (t1 - t0)) t1 (done ++ [(cs, ce)]) (le_trans a0 c0) c1 a1
+          apply band_extend s e cs ce tol done t0 t1 _ t1 hb c0 (le_refl _)
+          · intro t m0 m1 hge
+            rw [g] at gs ge hz hge
+            exact ⟨(aff_cut_lower _ _ t0 t1 _ gs ge hz a01 t).mp hge, m1⟩
+          · intro t m0 m1
+            rw [g] at gs ge hz ⊢
+            have := (aff_cut_lower _ _ t0 t1 _ gs ge hz a01 t).mpr m0
+            linarith
+      · rw [if_neg he]
+        have ge : sideOf cs ce (lerp s e t1) < 0 := by
+          have : ¬ 0 ≤ sideOf cs ce (lerp s e t1) := fun h => he ((shInsideLine_iff _ _ _).mpr h)
+          exact not_le.mp this
+        refine ⟨fun q0 q1 h => by simp at h, fun _ t k0 k1 hall => ?_⟩
+        have hd := hb.1 t k0 k1 (fun E hE => hall E (List.mem_append_left _ (List.mem_append_left _ hE)))
+        have hc := hall (cs, ce) (List.mem_append_left _ (by simp))
+        rw [g] at gs ge hc
+        have := aff_lt _ _ t0 t1 t 0 gs ge hd.1 hd.2
+        linarith
+
+/-- `ConvexClippingPolygon2d.clip_line` for EVERY tolerance `abs_tol ≥ 0` and every clipping polygon: a returned segment
+`(P(u0), P(u1))`, `0 ≤ u0 ≤ u1 ≤ 1`, (A) contains every point of the input segment that lies in all closed clip half-planes
+(nothing inside is cut away) and (B) consists of points that violate a clipping edge by at most `abs_tol`, measured by the side
+determinant `(ce - cs) × (p - cs)`.  For `abs_tol = 0` this is `clipLineConvex_exact`. -/
+theorem clipLineConvex_band (clip : List Pt) (tol : Rat) (htol : 0 ≤ tol) (s e q0 q1 : Pt)
+    (h : clipLineConvex clip tol s e = some (q0, q1)) :
+    ∃ u0 u1 : Rat, 0 ≤ u0 ∧ u0 ≤ u1 ∧ u1 ≤ 1 ∧ q0 = lerp s e u0 ∧ q1 = lerp s e u1 ∧
+      (∀ t : Rat, 0 ≤ t → t ≤ 1 → (∀ E ∈ polygonEdges clip, 0 ≤ sideOf E.1 E.2 (lerp s e t)) → u0 ≤ t ∧ t ≤ u1) ∧
+      (∀ t : Rat, u0 ≤ t → t ≤ u1 → ∀ E ∈ polygonEdges clip, -tol ≤ sideOf E.1 E.2 (lerp s e t)) := by
+  have e0 : s = lerp s e 0 := by simp [lerp]
+  have e1 : e = lerp s e 1 := by simp [lerp]
+  cases clip with
+  | nil =>
+    simp only [clipLineConvex, Option.some.injEq, Prod.mk.injEq] at h
+    refine ⟨0, 1, le_refl _, by norm_num, le_refl _, h.1 ▸ e0, h.2 ▸ e1, fun t k0 k1 _ => ⟨k0, k1⟩, fun t _ _ E hE => ?_⟩
+    simp [polygonEdges] at hE
+  | cons c cs =>
+    simp only [clipLineConvex] at h
+    have hm := (clipLine_band_master tol htol s e (c :: cs) (lastPt c cs) 0 1 [] (le_refl _) (by norm_num) (le_refl _)
+      ⟨fun t k0 k1 _ => ⟨k0, k1⟩, fun t _ _ E hE => by simp at hE⟩).1 q0 q1 (by rw [← e0, ← e1]; exact h)
+    obtain ⟨u0, u1, a0, a01, a1, f0, f1, hb⟩ := hm
+    simp only [List.nil_append] at hb
+    exact ⟨u0, u1, a0, a01, a1, f0, f1, hb.1, hb.2⟩
+
+/-- for every tolerance an empty result means that no point of the segment lies in all closed clip half-planes -/
+theorem clipLineConvex_band_none (clip : List Pt) (tol : Rat) (htol : 0 ≤ tol) (s e : Pt) (h : clipLineConvex clip tol s e = none) :
+    ∀ t : Rat, 0 ≤ t → t ≤ 1 → ¬ (∀ E ∈ polygonEdges clip, 0 ≤ sideOf E.1 E.2 (lerp s e t)) := by
+  have e0 : s = lerp s e 0 := by simp [lerp]
+  have e1 : e = lerp s e 1 := by simp [lerp]
+  cases clip with
+  | nil => simp [clipLineConvex] at h
+  | cons c cs =>
+    simp only [clipLineConvex] at h
+    have hm := (clipLine_band_master tol htol s e (c :: cs) (lastPt c cs) 0 1 [] (le_refl _) (by norm_num) (le_refl _)
+      ⟨fun t k0 k1 _ => ⟨k0, k1⟩, fun t _ _ E hE => by simp at hE⟩).2 (by rw [← e0, ← e1]; exact h)
+    simpa [polygonEdges] using hm
+
 /-! ### E4. Sutherland-Hodgman conserves the signed area across a cut (session 3, tolerance 0): clipping a polygon against an edge
 and against the reversed edge yields two polygons whose signed areas add up to the signed area of the polygon.
 Idea: measure the area as a fan around a point of the clipping line; then the bridging edges along the line contribute nothing
@@ -2412,6 +2613,67 @@ theorem clipEdge_area_split (c d : Pt) (hne : c ≠ d) (poly : List Pt) (hopen :
     dsimp only
     rw [clipEdge_fan c d c hne hcc v vs, clipEdge_fan d c c (Ne.symm hne) hdc v vs, partSum_add c d hne]
     rfl
+
+/-! ### E5. the whole of `clip_polygon` (growth round 2): area account over all clipping edges, and where the cut-away parts lie -/
+
+/-- the parts cut away by the successive clipping edges: the current polygon clipped against the REVERSED edge -/
+def cutOffs (tol : Rat) (cs : Pt) : List Pt → List Pt → List (List Pt)
+  | [], _ => []
+  | ce :: rest, poly => clipEdge ce cs tol poly :: cutOffs tol ce rest (clipEdge cs ce tol poly)
+
+/-- every clipping edge is proper and no intermediate polygon has a repeated closing vertex (`popClosing` leaves it unchanged) -/
+def StagesOpen (cs : Pt) : List Pt → List Pt → Prop
+  | [], _ => True
+  | ce :: rest, poly => cs ≠ ce ∧ popClosing poly 0 = poly ∧ StagesOpen ce rest (clipEdge cs ce 0 poly)
+
+def sumFan (o : Pt) (ps : List (List Pt)) : Rat := (ps.map (fanArea o)).sum
+
+private theorem clipPolygonGo_area (o : Pt) : ∀ (es : List Pt) (cs : Pt) (poly : List Pt), StagesOpen cs es poly →
+    fanArea o poly = fanArea o (clipPolygonGo 0 cs es poly) + sumFan o (cutOffs 0 cs es poly)
+  | [], cs, poly, _ => by simp [clipPolygonGo, cutOffs, sumFan]
+  | ce :: rest, cs, poly, h => by
+    obtain ⟨hne, hopen, hrest⟩ := h
+    have h1 := clipEdge_area_split cs ce hne poly hopen o
+    have h2 := clipPolygonGo_area o rest ce (clipEdge cs ce 0 poly) hrest
+    simp only [clipPolygonGo, cutOffs, sumFan, List.map_cons, List.sum_cons] at h2 ⊢
+    linarith
+
+/-- `clipPolygon_area_balance` (tolerance 0, any subject and any clipping polygon): the signed area of the subject is the signed
+area of the result plus the signed areas of the parts cut away by the individual clipping edges -/
+theorem clipPolygon_area_balance (c : Pt) (cs : List Pt) (poly : List Pt) (o : Pt)
+    (h : StagesOpen (lastPt c cs) (c :: cs) poly) :
+    fanArea o poly = fanArea o (clipPolygon (c :: cs) 0 poly) + sumFan o (cutOffs 0 (lastPt c cs) (c :: cs) poly) :=
+  clipPolygonGo_area o (c :: cs) (lastPt c cs) poly h
+
+private theorem cutOffs_spec (tol : Rat) (htol : 0 ≤ tol) (hull : List (Pt × Pt)) :
+    ∀ (es : List Pt) (cs : Pt) (poly : List Pt), (∀ G ∈ hull, ∀ v ∈ poly, 0 ≤ sideOf G.1 G.2 v) →
+    ∀ part ∈ cutOffs tol cs es poly, (∀ G ∈ hull, ∀ v ∈ part, 0 ≤ sideOf G.1 G.2 v) ∧
+      ∃ E ∈ clipEdges cs es, ∀ v ∈ part, sideOf E.1 E.2 v ≤ 0
+  | [], _, _, _, part, hp => by simp [cutOffs] at hp
+  | ce :: rest, cs, poly, hh, part, hp => by
+    simp only [cutOffs, List.mem_cons] at hp
+    rcases hp with rfl | hp
+    · refine ⟨fun G hG v hv => clipEdge_preserves_halfplane ce cs tol htol G.1 G.2 poly (hh G hG) v hv,
+        (cs, ce), by simp [clipEdges], fun v hv => ?_⟩
+      have := clipEdge_in_halfplane ce cs tol htol poly v hv
+      rw [sideOf_swap] at this
+      linarith
+    · obtain ⟨k1, E, hE, k2⟩ := cutOffs_spec tol htol hull rest ce (clipEdge cs ce tol poly)
+        (fun G hG v hv => clipEdge_preserves_halfplane cs ce tol htol G.1 G.2 poly (hh G hG) v hv) part hp
+      exact ⟨k1, E, by simp only [clipEdges, List.mem_cons]; exact Or.inr hE, k2⟩
+
+/-- where the cut-away parts lie: every part lies in the closed OUTER half-plane of one clipping edge and in every closed
+half-plane that contains the subject (i.e. in the convex hull of the subject).  Together with `clipPolygon_inside`,
+`clipPolygon_in_subject_hull` and `clipPolygon_area_balance`: for a convex subject `P` and a convex clipping polygon `C` the result
+lies in `P ∩ C`, the parts lie in `P \ interior(C)`, and the signed areas add up to the area of `P`. -/
+theorem cutOffs_outside (clip : List Pt) (tol : Rat) (htol : 0 ≤ tol) (poly : List Pt) (hull : List (Pt × Pt))
+    (hh : ∀ G ∈ hull, ∀ v ∈ poly, 0 ≤ sideOf G.1 G.2 v) (c : Pt) (cs : List Pt) (hc : clip = c :: cs) :
+    ∀ part ∈ cutOffs tol (lastPt c cs) clip poly, (∀ G ∈ hull, ∀ v ∈ part, 0 ≤ sideOf G.1 G.2 v) ∧
+      ∃ E ∈ polygonEdges clip, ∀ v ∈ part, sideOf E.1 E.2 v ≤ 0 := by
+  subst hc
+  intro part hp
+  obtain ⟨k1, E, hE, k2⟩ := cutOffs_spec tol htol hull (c :: cs) (lastPt c cs) poly hh part hp
+  exact ⟨k1, E, by simpa [polygonEdges] using hE, k2⟩
 
 /-! ## G. convex hull (`convex_hull_2d`, Andrew's monotone chain as coded) -/
 
@@ -3041,6 +3303,380 @@ theorem earcut_convex_no_overlap (l : List Node) (hc : Lemmas.EarConvex.ConvexRi
     List.Pairwise Lemmas.EarConvex.Separated (earcutLinked fuel l 0 pass).tris :=
   Lemmas.EarConvex.earcutLinked_convex_sep fuel l pass hc hlen hf
 
+/-! ## P. `earcut_uses_input_vertices` for the top-level function with holes (growth round 2) -/
+
+/-- the node carries the index and the coordinates of one of the given points -/
+def IsPoint (pts : List Pt) (v : Node) : Prop := ∃ p, pts[v.pt]? = some p ∧ v.x = p.x ∧ v.y = p.y
+
+/-- same source point and coordinates (what `IsPoint` looks at) -/
+private def Like (v u : Node) : Prop := v.pt = u.pt ∧ v.x = u.x ∧ v.y = u.y
+
+private theorem isPoint_like {pts : List Pt} {v u : Node} (h : Like v u) (hu : IsPoint pts u) : IsPoint pts v := by
+  obtain ⟨p, h1, h2, h3⟩ := hu
+  exact ⟨p, by rw [h.1]; exact h1, by rw [h.2.1]; exact h2, by rw [h.2.2]; exact h3⟩
+
+private theorem mkNodes_spec : ∀ (ps : List Pt) (off : Nat) (v : Node), v ∈ mkNodes ps off →
+    ∃ j p, ps[j]? = some p ∧ v.pt = off + j ∧ v.x = p.x ∧ v.y = p.y
+  | [], _, v, h => by simp [mkNodes] at h
+  | q :: qs, off, v, h => by
+    simp only [mkNodes, List.mem_cons] at h
+    rcases h with rfl | h
+    · exact ⟨0, q, rfl, rfl, rfl, rfl⟩
+    · obtain ⟨j, p, h1, h2, h3, h4⟩ := mkNodes_spec qs (off + 1) v h
+      exact ⟨j + 1, p, by simpa using h1, by omega, h3, h4⟩
+
+private theorem setIndex_like : ∀ (ns : List Node) (st : Nat) (v : Node), v ∈ setIndex ns st → ∃ u ∈ ns, Like v u
+  | [], _, v, h => by simp [setIndex] at h
+  | n :: ns, st, v, h => by
+    simp only [setIndex, List.mem_cons] at h
+    rcases h with rfl | h
+    · exact ⟨n, by simp, rfl, rfl, rfl⟩
+    · obtain ⟨u, hu, hl⟩ := setIndex_like ns (st + 1) v h
+      exact ⟨u, List.mem_cons_of_mem _ hu, hl⟩
+
+private theorem dropDuplicateLast_mem (l : List Node) : ∀ v ∈ dropDuplicateLast l, v ∈ l := by
+  intro v hv
+  unfold dropDuplicateLast at hv
+  split at hv
+  · split at hv
+    · exact List.mem_cons_of_mem _ hv
+    · exact hv
+  · exact hv
+
+private theorem linkedList_spec (ps : List Pt) (start off : Nat) (ccw : Bool) :
+    ∀ v ∈ linkedList ps start off ccw, ∃ j p, ps[j]? = some p ∧ v.pt = off + j ∧ v.x = p.x ∧ v.y = p.y := by
+  intro v hv
+  unfold linkedList at hv
+  have hv1 := mem_rotr.mp (dropDuplicateLast_mem _ v hv)
+  have hv2 : v ∈ setIndex (mkNodes ps off) start := by
+    split at hv1
+    · exact hv1
+    · exact List.mem_reverse.mp hv1
+  obtain ⟨u, hu, hl⟩ := setIndex_like _ _ v hv2
+  obtain ⟨j, p, h1, h2, h3, h4⟩ := mkNodes_spec ps off u hu
+  exact ⟨j, p, h1, by rw [hl.1]; exact h2, by rw [hl.2.1]; exact h3, by rw [hl.2.2]; exact h4⟩
+
+private theorem holeRings_spec : ∀ (hs : List (List Pt)) (start off : Nat) (ring : List Node), ring ∈ holeRings hs start off →
+    ∀ v ∈ ring, ∃ j p, hs.flatten[j]? = some p ∧ v.pt = off + j ∧ v.x = p.x ∧ v.y = p.y
+  | [], _, _, ring, h => by simp [holeRings] at h
+  | h :: hs, start, off, ring, hr => by
+    unfold holeRings at hr
+    split at hr
+    · rename_i hlen
+      have : h = [] := by
+        match h, hlen with
+        | [], _ => rfl
+      subst this
+      simpa using holeRings_spec hs start off ring hr
+    · simp only [List.mem_cons] at hr
+      rcases hr with rfl | hr
+      · intro v hv
+        rw [mem_rotBy] at hv
+        have hv' : ∃ u ∈ linkedList h start off false, Like v u := by
+          split at hv
+          · rename_i p hp
+            simp only [List.mem_singleton] at hv
+            subst hv
+            exact ⟨p, by rw [hp]; simp, rfl, rfl, rfl⟩
+          · exact ⟨v, hv, rfl, rfl, rfl⟩
+        obtain ⟨u, hu, hl⟩ := hv'
+        obtain ⟨j, p, h1, h2, h3, h4⟩ := linkedList_spec h start off false u hu
+        refine ⟨j, p, ?_, by rw [hl.1]; exact h2, by rw [hl.2.1]; exact h3, by rw [hl.2.2]; exact h4⟩
+        rw [List.flatten_cons, List.getElem?_append_left (by
+          have := List.getElem?_eq_some_iff.mp h1
+          exact this.1)]
+        exact h1
+      · intro v hv
+        obtain ⟨j, p, h1, h2, h3, h4⟩ := holeRings_spec hs (start + h.length) (off + h.length) ring hr v hv
+        refine ⟨h.length + j, p, ?_, by omega, h3, h4⟩
+        rw [List.flatten_cons, List.getElem?_append_right (by omega)]
+        simpa using h1
+
+private theorem insertHole_mem (h : List Node) : ∀ (gs : List (List Node)) (r : List Node), r ∈ insertHole h gs → r = h ∨ r ∈ gs
+  | [], r, hr => by simpa [insertHole] using hr
+  | g :: gs, r, hr => by
+    unfold insertHole at hr
+    split at hr
+    · simp only [List.mem_cons] at hr ⊢
+      rcases hr with rfl | hr
+      · exact Or.inr (Or.inl rfl)
+      · rcases insertHole_mem h gs r hr with h1 | h1
+        · exact Or.inl h1
+        · exact Or.inr (Or.inr h1)
+    · simpa using hr
+
+private theorem sortHoles_mem (hs : List (List Node)) : ∀ r ∈ sortHoles hs, r ∈ hs := by
+  have : ∀ (hs acc : List (List Node)), ∀ r ∈ hs.foldl (fun acc h => insertHole h acc) acc, r ∈ acc ∨ r ∈ hs := by
+    intro hs
+    induction hs with
+    | nil => intro acc r hr; exact Or.inl hr
+    | cons h hs ih =>
+      intro acc r hr
+      rcases ih _ r hr with h1 | h1
+      · rcases insertHole_mem h acc r h1 with rfl | h2
+        · exact Or.inr (by simp)
+        · exact Or.inl h2
+      · exact Or.inr (List.mem_cons_of_mem _ h1)
+  intro r hr
+  rcases this hs [] r hr with h1 | h1
+  · simp at h1
+  · exact h1
+
+private theorem eliminateHole_like (hole outer : List Node) :
+    ∀ v ∈ (eliminateHole hole outer).1, ∃ u, (u ∈ outer ∨ u ∈ hole) ∧ Like v u := by
+  intro v hv
+  have refl : ∀ u, Like u u := fun u => ⟨rfl, rfl, rfl⟩
+  unfold eliminateHole at hv
+  split at hv
+  · exact ⟨v, Or.inl hv, refl v⟩
+  · rename_i h hrest
+    split at hv
+    · exact ⟨v, Or.inl hv, refl v⟩
+    · rename_i idx hidx
+      -- all nodes of the merged ring come from the two rings
+      have hmerge : ∀ w ∈ (mergeHole (rotBy idx outer) (h :: hrest)).1, ∃ u, (u ∈ outer ∨ u ∈ h :: hrest) ∧ Like w u := by
+        intro w hw
+        match hro : rotBy idx outer with
+        | [] =>
+          rw [hro] at hw
+          simp [mergeHole] at hw
+        | a :: as =>
+          rw [hro] at hw
+          have hao : ∀ x ∈ a :: as, x ∈ outer := fun x hx => mem_rotBy.mp (hro ▸ hx)
+          simp only [mergeHole, List.cons_append, List.mem_cons, List.mem_append] at hw
+          rcases hw with rfl | rfl | hw | rfl | rfl | hw
+          · exact ⟨h, Or.inr (by simp), rfl, rfl, rfl⟩
+          · exact ⟨a, Or.inl (hao a (by simp)), rfl, rfl, rfl⟩
+          · exact ⟨w, Or.inl (hao w (List.mem_cons_of_mem _ hw)), refl w⟩
+          · exact ⟨w, Or.inl (hao w (by simp)), refl w⟩
+          · exact ⟨w, Or.inr (by simp), refl w⟩
+          · exact ⟨w, Or.inr (List.mem_cons_of_mem _ hw), refl w⟩
+      have hf1 : ∀ w ∈ (filterPointsM (mergeHole (rotBy idx outer) (h :: hrest)).1 1
+          { pos := some (mergeHole (rotBy idx outer) (h :: hrest)).2 }).1, ∃ u, (u ∈ outer ∨ u ∈ h :: hrest) ∧ Like w u :=
+        fun w hw => hmerge w (filterPoints_subset _ _ _ w hw)
+      dsimp only at hv
+      split at hv
+      · exact hf1 v (mem_rotBy.mp (filterPoints_subset _ _ _ v hv))
+      · split at hv
+        · split at hv
+          · exact hf1 v hv
+          · exact hf1 v (mem_rotBy.mp (filterPoints_subset _ _ _ v hv))
+        · exact hf1 v hv
+      · exact hf1 v hv
+
+private theorem eliminateHoles_like (rings : List (List Node)) (outer : List Node) :
+    ∀ v ∈ (rings.foldl (fun (acc : List Node × Bool) h => ((eliminateHole h acc.1).1, acc.2 || (eliminateHole h acc.1).2))
+      (outer, false)).1, ∃ u, (u ∈ outer ∨ ∃ r ∈ rings, u ∈ r) ∧ Like v u := by
+  have gen : ∀ (rings : List (List Node)) (acc : List Node × Bool),
+      ∀ v ∈ (rings.foldl (fun (acc : List Node × Bool) h => ((eliminateHole h acc.1).1, acc.2 || (eliminateHole h acc.1).2)) acc).1,
+        ∃ u, (u ∈ acc.1 ∨ ∃ r ∈ rings, u ∈ r) ∧ Like v u := by
+    intro rings
+    induction rings with
+    | nil => intro acc v hv; exact ⟨v, Or.inl hv, rfl, rfl, rfl⟩
+    | cons h hs ih =>
+      intro acc v hv
+      obtain ⟨u, hu, hl⟩ := ih _ v hv
+      rcases hu with hu | ⟨r, hr, hur⟩
+      · obtain ⟨u2, hu2, hl2⟩ := eliminateHole_like h acc.1 u hu
+        refine ⟨u2, ?_, ⟨hl.1.trans hl2.1, hl.2.1.trans hl2.2.1, hl.2.2.trans hl2.2.2⟩⟩
+        rcases hu2 with h1 | h1
+        · exact Or.inl h1
+        · exact Or.inr ⟨h, by simp, h1⟩
+      · exact ⟨u, Or.inr ⟨r, List.mem_cons_of_mem _ hr, hur⟩, hl⟩
+  exact gen rings (outer, false)
+
+/-- `earcut_uses_input_vertices`: every vertex of every triangle returned by `earcut(exterior, holes)` (any input, valid or not,
+with holes and Steiner points) carries the index and the coordinates of one of the points of `exterior ++ holes` -/
+theorem earcut_uses_input_vertices (fuel : Nat) (exterior : List Pt) (holes : List (List Pt)) (o : Out) (d : Bool)
+    (h : earcut fuel exterior holes = .ok o d) :
+    ∀ t ∈ o.tris, ∀ v ∈ [t.1, t.2.1, t.2.2], IsPoint (exterior ++ holes.flatten) v := by
+  unfold earcut at h
+  split at h
+  · simp at h
+  · dsimp only at h
+    split at h
+    · simp only [EarcutResult.ok.injEq] at h
+      obtain ⟨rfl, _⟩ := h
+      intro t ht; simp at ht
+    · have houter : ∀ u ∈ linkedList exterior 0 0 true, IsPoint (exterior ++ holes.flatten) u := by
+        intro u hu
+        obtain ⟨j, p, h1, h2, h3, h4⟩ := linkedList_spec exterior 0 0 true u hu
+        refine ⟨p, ?_, h3, h4⟩
+        rw [h2, Nat.zero_add, List.getElem?_append_left (List.getElem?_eq_some_iff.mp h1).1]
+        exact h1
+      have hring : ∀ u ∈ (if holes.length > 0 then eliminateHoles holes exterior.length (linkedList exterior 0 0 true)
+          else (linkedList exterior 0 0 true, false)).1, IsPoint (exterior ++ holes.flatten) u := by
+        intro u hu
+        split at hu
+        · unfold eliminateHoles at hu
+          obtain ⟨w, hw, hl⟩ := eliminateHoles_like _ _ u hu
+          apply isPoint_like hl
+          rcases hw with hw | ⟨r, hr, hwr⟩
+          · exact houter w hw
+          · obtain ⟨j, p, h1, h2, h3, h4⟩ := holeRings_spec holes exterior.length exterior.length r (sortHoles_mem _ r hr) w hwr
+            refine ⟨p, ?_, h3, h4⟩
+            rw [h2, List.getElem?_append_right (by omega)]
+            simpa using h1
+        · exact houter u hu
+      simp only [EarcutResult.ok.injEq] at h
+      obtain ⟨rfl, _⟩ := h
+      intro t ht v hv
+      obtain ⟨u, hu, hs⟩ := earcut_triangle_vertices _ _ _ _ t ht v hv
+      exact isPoint_like ⟨hs.1, hs.2.1, hs.2.2.1⟩ (hring u hu)
+
+/-! ## Q. non-overlap of the earcut triangles for ARBITRARY rings via winding numbers (growth round 2; proofs in
+`Lemmas/PolygonWinding.lean`)
+
+`Lemmas.Winding.wnRing x l` is the exact winding number of the ring `l` around the point `x` (the crossing rule of
+`pip_agrees_exact`; `wnRing_eq_windingNumber`).  The winding number is additive under ear removal exactly like the shoelace area,
+a counter-clockwise triangle has winding number 0 or 1 everywhere and 1 strictly inside, so the triangles of a complete run can
+cover a point only as often as the ring winds around it.  The ONE geometric hypothesis (Jordan curve theorem for the input) is
+explicit: `wnRing x l ≤ 1`. -/
+
+/-- removing the cursor node changes the winding number around any point by that of the cut triangle -/
+theorem ear_removal_winding (x : Pt) (b c : Node) (r : List Node) :
+    Lemmas.Winding.wnRing x (b :: c :: r) = Lemmas.Winding.wnRing x (c :: r) + Lemmas.Winding.wnRing x [lastOr c r, b, c] :=
+  Lemmas.Winding.ear_removal_winding x b c r
+
+/-- a counter-clockwise triangle (`area < 0` in the convention of the code) has winding number 0 or 1 at EVERY point, including
+its boundary (half-open crossing rule), and 1 at every point strictly inside -/
+theorem triangle_winding_ccw (x : Pt) (a b c : Node) (hccw : area a b c < 0) :
+    0 ≤ Lemmas.Winding.wnTri x (a, b, c) ∧ Lemmas.Winding.wnTri x (a, b, c) ≤ 1 ∧
+    (Lemmas.Winding.StrictlyInside x (a, b, c) → Lemmas.Winding.wnTri x (a, b, c) = 1) := by
+  have h := Lemmas.Winding.wnTri_ccw x a b c ((Lemmas.Winding.triCcw_iff (a, b, c)).mpr hccw)
+  exact ⟨h.1, h.2.1, fun hin => h.2.2 hin.1 hin.2.1 hin.2.2⟩
+
+/-- a degenerate triangle (three collinear or coincident nodes: what `filter_points` removes) has winding number 0 everywhere -/
+theorem triangle_winding_degenerate (x : Pt) (a b c : Node) (h : area a b c = 0) : Lemmas.Winding.wnTri x (a, b, c) = 0 := by
+  apply Lemmas.Winding.wnTri_degenerate
+  simp only [area, PolygonKernels.area] at h
+  simp only [sideOf, Lemmas.Winding.toPt]
+  linarith
+
+/-- winding balance of the whole model of `earcut_linked` (all passes, `filter_points`, `cure_local_intersections`,
+`split_ear_cut`), for every ring, fuel and point: the exact analogue of `earcutLinked_area` -/
+theorem earcutLinked_winding (x : Pt) (fuel : Nat) (l : List Node) (k pass : Nat) :
+    Lemmas.Winding.wnRing x l = Lemmas.Winding.outWn x (earcutLinked fuel l k pass) :=
+  Lemmas.Winding.earcutLinked_winding x fuel l k pass
+
+/-- any sequence of ear removals (`cutEars`): non-overlap and containment from the winding bound -/
+theorem cutEars_no_overlap (x : Pt) (l : List Node) (ks : List Nat)
+    (hccw : ∀ t ∈ (cutEars l ks).1, triArea t < 0) (hdone : (cutEars l ks).2.length < 3) :
+    (Lemmas.Winding.wnRing x l ≤ 1 →
+      List.Pairwise (fun t1 t2 => ¬ (Lemmas.Winding.StrictlyInside x t1 ∧ Lemmas.Winding.StrictlyInside x t2)) (cutEars l ks).1) ∧
+    (∀ t ∈ (cutEars l ks).1, Lemmas.Winding.StrictlyInside x t → 1 ≤ Lemmas.Winding.wnRing x l) :=
+  let r := Lemmas.Winding.cutEars_no_overlap x l ks (fun t ht => (Lemmas.Winding.triCcw_iff t).mpr (hccw t ht)) hdone
+  ⟨r.1, r.2.1⟩
+
+/-- `earcut_no_overlap` for the real loop and ANY ring (non-convex, with bridged holes): in a complete run no point `x` around
+which the ring winds at most once lies strictly inside two triangles, and every triangle that contains `x` strictly lies inside
+the polygon (the ring winds around `x`).  For a simple counter-clockwise polygon `wnRing x l ≤ 1` holds for every `x`
+(Jordan curve theorem — the explicit hypothesis), so the triangles are pairwise interior-disjoint and inside the polygon. -/
+theorem earcut_no_overlap (x : Pt) (fuel : Nat) (l : List Node) (k pass : Nat)
+    (hcomplete : (earcutLinked fuel l k pass).complete) :
+    (Lemmas.Winding.wnRing x l ≤ 1 →
+      List.Pairwise (fun t1 t2 => ¬ (Lemmas.Winding.StrictlyInside x t1 ∧ Lemmas.Winding.StrictlyInside x t2))
+        (earcutLinked fuel l k pass).tris) ∧
+    (∀ t ∈ (earcutLinked fuel l k pass).tris, Lemmas.Winding.StrictlyInside x t → 1 ≤ Lemmas.Winding.wnRing x l) ∧
+    0 ≤ Lemmas.Winding.wnRing x l := by
+  have hccw := earcut_triangles_ccw fuel l k pass hcomplete.2.1
+  exact Lemmas.Winding.earcutLinked_no_overlap x fuel l k pass hcomplete
+    (fun t ht => (Lemmas.Winding.triCcw_iff t).mpr (hccw t ht))
+
+/-- headline for `earcut(exterior, [])` (at most 80 vertices): a complete run on ANY exterior ring — at a point `x` around which the
+ring built by `linked_list` winds at most once, at most one triangle contains `x` strictly, and a triangle that contains `x`
+strictly lies inside the polygon -/
+theorem earcut_no_holes_no_overlap (x : Pt) (fuel : Nat) (exterior : List Pt) (o : Out) (d : Bool)
+    (h : earcut fuel exterior [] = .ok o d) (hc : o.complete) :
+    (Lemmas.Winding.wnRing x (linkedList exterior 0 0 true) ≤ 1 →
+      List.Pairwise (fun t1 t2 => ¬ (Lemmas.Winding.StrictlyInside x t1 ∧ Lemmas.Winding.StrictlyInside x t2)) o.tris) ∧
+    (∀ t ∈ o.tris, Lemmas.Winding.StrictlyInside x t → 1 ≤ Lemmas.Winding.wnRing x (linkedList exterior 0 0 true)) := by
+  unfold earcut at h
+  split at h
+  · simp at h
+  · dsimp only at h
+    split at h
+    · simp only [EarcutResult.ok.injEq] at h
+      obtain ⟨rfl, _⟩ := h
+      exact ⟨fun _ => List.Pairwise.nil, fun t ht => by simp at ht⟩
+    · simp only [List.length_nil, Nat.lt_irrefl, if_false, EarcutResult.ok.injEq] at h
+      obtain ⟨rfl, _⟩ := h
+      have := earcut_no_overlap x fuel (linkedList exterior 0 0 true) 0 0 hc
+      exact ⟨this.1, this.2.1⟩
+
+/-- headline for `earcut(exterior, holes)` with holes (modelled situations: flag `detached = false`): the ring that is sliced
+winds around `x` like the outer ring plus the bridged hole rings (`used`, a sublist of the hole rings; holes are clockwise, so they
+subtract).  In a complete run, at a point where this total is at most 1, at most one triangle contains `x` strictly, and a triangle
+that contains `x` strictly lies where the total is at least 1 (inside the exterior and in no bridged hole, for valid input). -/
+theorem earcut_with_holes_no_overlap (x : Pt) (fuel : Nat) (exterior : List Pt) (holes : List (List Pt)) (o : Out)
+    (h : earcut fuel exterior holes = .ok o false) (hc : o.complete) (hh : holes.length > 0) :
+    ∃ used : List (List Node), used.Sublist (sortHoles (holeRings holes exterior.length exterior.length)) ∧
+      (Lemmas.Winding.wnRing x (linkedList exterior 0 0 true) + Lemmas.Winding.sumWnRings x used ≤ 1 →
+        List.Pairwise (fun t1 t2 => ¬ (Lemmas.Winding.StrictlyInside x t1 ∧ Lemmas.Winding.StrictlyInside x t2)) o.tris) ∧
+      (∀ t ∈ o.tris, Lemmas.Winding.StrictlyInside x t →
+        1 ≤ Lemmas.Winding.wnRing x (linkedList exterior 0 0 true) + Lemmas.Winding.sumWnRings x used) := by
+  unfold earcut at h
+  split at h
+  · simp at h
+  · dsimp only at h
+    split at h
+    · simp only [EarcutResult.ok.injEq] at h
+      obtain ⟨rfl, _⟩ := h
+      exact ⟨[], List.nil_sublist _, fun _ => List.Pairwise.nil, fun t ht => by simp at ht⟩
+    · simp only [hh, if_true, EarcutResult.ok.injEq] at h
+      obtain ⟨rfl, hflag⟩ := h
+      unfold eliminateHoles at hflag hc ⊢
+      obtain ⟨used, hsub, hw⟩ := Lemmas.Winding.eliminateHoles_winding x _ (linkedList exterior 0 0 true, false) hflag
+      have := earcut_no_overlap x fuel _ 0 0 hc
+      rw [hw] at this
+      exact ⟨used, hsub, this.1, this.2.1⟩
+
+/-- outside a counter-clockwise triangle (strictly outside one of its edges) the winding number is 0: together with
+`triangle_winding_ccw` the winding number of a ccw triangle is 1 strictly inside, 0 strictly outside, 0 or 1 on the boundary -/
+theorem triangle_winding_outside (x : Pt) (a b c : Node) (hccw : area a b c < 0) (hout : ¬ Lemmas.Winding.InClosed x (a, b, c)) :
+    Lemmas.Winding.wnTri x (a, b, c) = 0 := by
+  apply Lemmas.Winding.wnTri_outside x a b c ((Lemmas.Winding.triCcw_iff (a, b, c)).mpr hccw)
+  unfold Lemmas.Winding.InClosed at hout
+  by_contra hc
+  simp only [not_or, not_lt] at hc
+  exact hout ⟨hc.1, hc.2.1, hc.2.2⟩
+
+/-- `earcut_covers`: in a complete run every point around which the ring winds (`0 < wnRing x l`: the points inside the polygon)
+lies in the closed triangle of some emitted triangle: the triangulation leaves nothing of the polygon uncovered.  With
+`earcut_no_overlap`: for `wnRing x l = 1` the point is covered, and strictly inside at most one triangle. -/
+theorem earcut_covers (x : Pt) (fuel : Nat) (l : List Node) (k pass : Nat)
+    (hcomplete : (earcutLinked fuel l k pass).complete) (hx : 0 < Lemmas.Winding.wnRing x l) :
+    ∃ t ∈ (earcutLinked fuel l k pass).tris, Lemmas.Winding.InClosed x t := by
+  have hccw := earcut_triangles_ccw fuel l k pass hcomplete.2.1
+  exact Lemmas.Winding.earcutLinked_covers x fuel l k pass hcomplete
+    (fun t ht => (Lemmas.Winding.triCcw_iff t).mpr (hccw t ht)) hx
+
+/-- a polygon whose vertices all lie in a closed half-plane does not wind around any point strictly outside that half-plane
+(any polygon: self-intersecting, any orientation) -/
+theorem winding_outside_halfplane (x g h : Pt) (poly : List Pt) (hv : ∀ v ∈ poly, 0 ≤ sideOf g h v) (hx : sideOf g h x < 0) :
+    windingNumber x poly = 0 :=
+  Lemmas.Winding.windingNumber_halfplane x g h poly hv hx
+
+/-- Sutherland-Hodgman, containment of REGIONS (not only of vertices), every tolerance, every subject and clipping polygon: the
+result of `clip_polygon` does not wind around any point that lies strictly outside one clipping edge — the clipped region is
+contained in the intersection of the clip half-planes (in the sense of the exact winding number, i.e. of `pip_agrees_exact`) -/
+theorem clipPolygon_region_inside (clip : List Pt) (tol : Rat) (htol : 0 ≤ tol) (poly : List Pt) (hclip : clip ≠ [])
+    (x : Pt) (E : Pt × Pt) (hE : E ∈ polygonEdges clip) (hx : sideOf E.1 E.2 x < 0) :
+    windingNumber x (clipPolygon clip tol poly) = 0 :=
+  Lemmas.Winding.windingNumber_halfplane x E.1 E.2 _ (fun v hv => clipPolygon_inside clip tol htol poly hclip v hv E hE) hx
+
+/-- … and in the convex hull of the subject: the result does not wind around a point strictly outside a closed half-plane that
+contains all subject vertices -/
+theorem clipPolygon_region_in_subject_hull (clip : List Pt) (tol : Rat) (htol : 0 ≤ tol) (poly : List Pt) (g h x : Pt)
+    (hv : ∀ v ∈ poly, 0 ≤ sideOf g h v) (hx : sideOf g h x < 0) :
+    windingNumber x (clipPolygon clip tol poly) = 0 :=
+  Lemmas.Winding.windingNumber_halfplane x g h _ (clipPolygon_in_subject_hull clip tol htol poly g h hv) hx
+
+/-- the ring winding number is the winding number that `pip_agrees_exact` relates to `is_point_in_polygon_2d` -/
+theorem wnRing_eq_windingNumber (x : Pt) (l : List Node) :
+    Lemmas.Winding.wnRing x l = windingNumber x (l.map Lemmas.Winding.toPt) :=
+  Lemmas.Winding.wnRing_eq_windingNumber x l
+
 /-! ## statements of C19 that are NOT proved (kept visible; covered by correspondence and the exact oracle only)
 
 ```
@@ -3050,28 +3686,25 @@ theorem earcut_convex_no_overlap (l : List Node) (hc : Lemmas.EarConvex.ConvexRi
 -- reason: needs the Jordan-curve style two-ears argument for the ear test as coded (bounding box + point_in_triangle +
 -- reflex test).  Proved for the class of strictly convex rings of any size: `earcut_completes_convex` (section O).
 
--- non-overlap: the open triangles of a complete run on a simple polygon are pairwise disjoint and lie inside it
--- theorem earcut_no_overlap ...
--- proved (section L): what the test guarantees (`isEar_iff`, `pointInTriangle_exact`, `isEar_bbox_redundant`);
--- not proved: "no reflex-or-flat vertex in the closed ear triangle of a simple polygon => the ear is disjoint from the rest"
--- (a statement about simple closed curves), hence not the induction over the ear sequence for general simple polygons.
--- Proved for strictly convex rings of any size: `earcut_convex_no_overlap` (pairwise separation by a line).
+-- non-overlap: proved for every ring in section Q (`earcut_no_overlap`, `earcut_no_holes_no_overlap`,
+-- `earcut_with_holes_no_overlap`) from ONE explicit hypothesis, `wnRing x l ≤ 1` (the ring winds at most once around the point);
+-- that a simple counter-clockwise polygon satisfies it at every point (Jordan curve theorem) is NOT proved, and completeness of
+-- the run is assumed (`o.complete`).
 
--- Sutherland-Hodgman exactness: `clipPolygon clip tol poly` = poly ∩ convex clip as point sets / shoelace area of it
--- theorem sh_exact_area ...
--- proved: containment in every clip half-plane (`clipPolygon_inside`) and in the hull of the subject
--- (`clipPolygon_in_subject_hull`), `clip_outside_empty`, `clip_inside_identity`, and the conservation of the signed area
--- across one cut (`clipEdge_area_split`, tolerance 0); not proved: equality with the intersection as a point set, and
--- clip_idempotent (vertices on a clipping edge are cut again: equal only up to the intersection tolerance).
-
--- ConvexClippingPolygon2d.clip_line with abs_tol > 0: `clipLineConvex_exact` is proved for tolerance 0; with a positive
--- tolerance an end point whose edge is parallel to the clipping edge within the tolerance is kept although it is outside.
+-- Sutherland-Hodgman exactness: `clipPolygon clip tol poly` = poly ∩ convex clip as point sets
+-- theorem sh_exact ...
+-- proved: containment in every clip half-plane and in the hull of the subject, `clip_outside_empty`, `clip_inside_identity`,
+-- conservation of the signed area across one cut (`clipEdge_area_split`) and over all clipping edges
+-- (`clipPolygon_area_balance`), the cut-away parts lie in the closed outer half-plane of their edge and in the hull of the
+-- subject (`cutOffs_outside`).  Not proved: the converse containment (every point of subject ∩ clip is in the result), also not
+-- for convex subjects; route: the winding number of the clipped polygon equals that of the subject strictly inside the half-plane
+-- and 0 strictly outside (needs the winding analogue of `clipEdge_area_split`).  clip_idempotent: not proved.
 
 -- Greiner-Hormann: area(A) + area(B) = area(A|B) + area(A&B) as a statement about areas
 -- proved (section M): the entry/exit classification and the complementary pieces (`gh_union_intersection_partition`);
 -- not modelled: phase 1 (intersection search) and the assembly of the result polygons in phase 3.
 
--- pip: "winding number of a simple polygon is 0 or ±1, and odd = inside" (Jordan curve theorem) is not proved;
+-- pip / winding: "the winding number of a simple polygon is 0 or ±1, and odd = inside" (Jordan curve theorem) is not proved;
 -- `pip_agrees_exact` identifies the answer with the parity of the exact winding number.
 ```
 -/
@@ -3113,6 +3746,10 @@ example : (0 : Rat) ≤ PolygonKernels.tolerance := by simp only [PolygonKernels
 #guard fanArea ⟨0, 0⟩ (clipEdge ⟨2, 0⟩ ⟨2, 1⟩ 0 [⟨0, 0⟩, ⟨4, 0⟩, ⟨4, 4⟩, ⟨2, 1⟩, ⟨0, 4⟩]) = 10
 #guard fanArea ⟨0, 0⟩ (clipEdge ⟨2, 1⟩ ⟨2, 0⟩ 0 [⟨0, 0⟩, ⟨4, 0⟩, ⟨4, 4⟩, ⟨2, 1⟩, ⟨0, 4⟩]) = 10
 #guard popClosing [⟨0, 0⟩, ⟨4, 0⟩, ⟨4, 4⟩, ⟨2, 1⟩, (⟨0, 4⟩ : Pt)] 0 = [⟨0, 0⟩, ⟨4, 0⟩, ⟨4, 4⟩, ⟨2, 1⟩, ⟨0, 4⟩]
+-- `clipPolygon_area_balance`: the unit square shifted by (1, 1) against the square [0,2]^2: area 4 = 1 (result) + 2 + 1 + 0 + 0 (parts)
+#guard fanArea ⟨0, 0⟩ (clipPolygon [⟨0, 0⟩, ⟨2, 0⟩, ⟨2, 2⟩, ⟨0, 2⟩] 0 [⟨1, 1⟩, ⟨3, 1⟩, ⟨3, 3⟩, ⟨1, 3⟩]) = 2
+#guard (cutOffs 0 ⟨0, 2⟩ [⟨0, 0⟩, ⟨2, 0⟩, ⟨2, 2⟩, ⟨0, 2⟩] [⟨1, 1⟩, ⟨3, 1⟩, ⟨3, 3⟩, ⟨1, 3⟩]).map (fanArea ⟨0, 0⟩) = [0, 0, 4, 2]
+#guard popClosing (clipEdge ⟨0, 2⟩ ⟨0, 0⟩ 0 [⟨1, 1⟩, ⟨3, 1⟩, ⟨3, 3⟩, (⟨1, 3⟩ : Pt)]) 0 = clipEdge ⟨0, 2⟩ ⟨0, 0⟩ 0 [⟨1, 1⟩, ⟨3, 1⟩, ⟨3, 3⟩, ⟨1, 3⟩]
 -- `clipLineConvex_exact` / `clipLineConvex_none`: a line through a triangle, a line that misses it
 #guard clipLineConvex [⟨0, 0⟩, ⟨4, 0⟩, ⟨0, 4⟩] 0 ⟨-1, 1⟩ ⟨5, 1⟩ = some (⟨0, 1⟩, ⟨3, 1⟩)
 #guard clipLineConvex [⟨0, 0⟩, ⟨4, 0⟩, ⟨0, 4⟩] 0 ⟨3, 3⟩ ⟨5, 1⟩ = none
@@ -3160,6 +3797,13 @@ example : Lemmas.EarConvex.ConvexRing [⟨0, 0, 0, 0, false⟩, ⟨1, 1, 4, 0, f
   obtain ⟨rfl, rfl, rfl⟩ := this
   simp [area, PolygonKernels.area]
 #guard (earcutLinked 9 (linkedList [⟨2, 0⟩, ⟨4, 0⟩, ⟨6, 2⟩, ⟨6, 4⟩, ⟨4, 6⟩, ⟨2, 6⟩, ⟨0, 4⟩, ⟨0, 2⟩] 0 0 true) 0 0).tris.length = 6
+-- `clipPolygon_region_inside`: the clipped square [1,2]^2 does not wind around (3, 3/2), it winds once around (3/2, 3/2)
+#guard windingNumber ⟨3, 3 / 2⟩ (clipPolygon [⟨0, 0⟩, ⟨2, 0⟩, ⟨2, 2⟩, ⟨0, 2⟩] PolygonKernels.tolerance [⟨1, 1⟩, ⟨3, 1⟩, ⟨3, 3⟩, ⟨1, 3⟩]) = 0
+#guard windingNumber ⟨3 / 2, 3 / 2⟩ (clipPolygon [⟨0, 0⟩, ⟨2, 0⟩, ⟨2, 2⟩, ⟨0, 2⟩] PolygonKernels.tolerance [⟨1, 1⟩, ⟨3, 1⟩, ⟨3, 3⟩, ⟨1, 3⟩]) = 1
+-- `earcut_no_overlap`: the hypothesis `wnRing x l ≤ 1` for a concave ring and points inside / in the notch / outside
+#guard Lemmas.Winding.wnRing ⟨1, 1⟩ (linkedList [⟨0, 0⟩, ⟨0, 4⟩, ⟨2, 1⟩, ⟨4, 4⟩, ⟨4, 0⟩] 0 0 true) = 1
+#guard Lemmas.Winding.wnRing ⟨2, 3⟩ (linkedList [⟨0, 0⟩, ⟨0, 4⟩, ⟨2, 1⟩, ⟨4, 4⟩, ⟨4, 0⟩] 0 0 true) = 0
+#guard Lemmas.Winding.wnRing ⟨5, 1⟩ (linkedList [⟨0, 0⟩, ⟨0, 4⟩, ⟨2, 1⟩, ⟨4, 4⟩, ⟨4, 0⟩] 0 0 true) = 0
 -- `pip_agrees_exact`: inside, outside, boundary; a closed input ring loses its closing vertex
 #guard pointInPolygon ⟨1, 1⟩ [⟨0, 0⟩, ⟨4, 0⟩, ⟨4, 4⟩, ⟨0, 4⟩] PolygonKernels.tolerance = 1
 #guard windingNumber ⟨1, 1⟩ [⟨0, 0⟩, ⟨4, 0⟩, ⟨4, 4⟩, ⟨0, 4⟩] = 1 ∧ windingNumber ⟨1, 1⟩ [⟨0, 4⟩, ⟨4, 4⟩, ⟨4, 0⟩, ⟨0, 0⟩] = -1
